@@ -157,3 +157,7 @@ def concrete(line):
         f[1] = ",".join([hx(exe.encode()), hx(d.encode()), hx(new_id().encode())])
         res.append("/".join(f))
     return " ".join(res)
+
+
+import verbosity  # noqa: E402
+run_case = verbosity.wrap(run_case)   # one case in eight runs at Verbosity.CHANNEL
